@@ -83,11 +83,15 @@ def run_task(task):
         # simulation minification on the raw candidate set: greedy ASP optimisation off, default configuration
         k = len(prefix)
         cs += [z3.Not(z3.Bool(f"h{k}_greedy")), z3.Bool(f"h{k}_sim")] + [z3.Int(c) == -1 for c in CFG]
+    if task["params"].get("free_inputs"):
+        fv, fc = hist.declare_free(net)
+        vs, cs = vs + fv, cs + fc
     H = hist.SymH(net.n)
     selftest = task["params"].get("selftest")
 
     def harness(ctx, rules):
         oracles.AEON_TEXT.clear()
+        hist.set_presentation(H, net.names, task["params"])
         out = execute(rules, prefix, H, net.names, True)
         parts = assertion(net, out)
         if selftest:
@@ -104,6 +108,7 @@ def run_task(task):
 def replay(rec):
     B = ConcreteNet.from_bnet(rec["rules"])
     H = hist.ConcH(rec.get("hist", {}))
+    hist.set_presentation(H, B.names, rec["params"])
     out = execute(rec["rules"], tuple(rec["params"]["prefix"]), H, B.names, False)
     parts = assertion(B, out)
     if rec["params"].get("selftest"):
@@ -116,9 +121,9 @@ def tasks(tier, seed, selftest=False):
     T = []
     q = tier == "quick"
 
-    def add(fam, prefix, box, cube_k=0, nbits=0, order="canonical", slice_=None):
-        base = {"prop": PROP, "family": fam, "label": f"{fam}/{'+'.join(prefix) or 'fresh'}/{order}" + (f"/{slice_}" if slice_ else ""), "timebox": box, "seed": seed,
-                "params": {"prefix": list(prefix), "selftest": selftest, "order": order, "slice": slice_}}
+    def add(fam, prefix, box, cube_k=0, nbits=0, order="canonical", slice_=None, free=False):
+        base = {"prop": PROP, "family": fam, "label": f"{fam}/{'+'.join(prefix) or 'fresh'}/{order}" + (f"/{slice_}" if slice_ else "") + ("/free-inputs" if free else ""), "timebox": box, "seed": seed,
+                "params": {"prefix": list(prefix), "selftest": selftest, "order": order, "slice": slice_, "free_inputs": free}}
         if cube_k:
             for cube in common.cubes(nbits, cube_k):
                 T.append(dict(base, cube=cube))
@@ -138,6 +143,10 @@ def tasks(tier, seed, selftest=False):
     for p in ((), ("fullbfs",)):
         add("N3", p, 30 if q else 1200, slice_="simonly")
         add("U2", p, 15 if q else 600, slice_="simonly")
+    # inputs presented as free inputs (variables without update function)
+    for p in ((), ("succ",)):
+        add("D3", p, 12 if q else 600, free=True)
+        add("S1C2", p, 12 if q else 600, free=True)
     if not q:
         for p in ((), ("succ",), ("fullbfs",)):
             add("U2", p, 900, order="reversed")
